@@ -21,7 +21,7 @@ Proof. rewrite !in64_spec. intros Hx Hy Hy0. Z.to_euclidean_division_equations. 
 Lemma binop_val_ok o va vb v : eval_binop o va vb = OV v -> val_ok va -> val_ok vb -> val_ok v.
 Proof.
   intros H Ha Hb.
-  destruct o; destruct va as [x|x| |x], vb as [y|y| |y]; cbn [eval_binop value_eqb] in H; try discriminate H;
+  destruct o; destruct va as [x|x| |x|x], vb as [y|y| |y|y]; cbn [eval_binop value_eqb] in H; try discriminate H;
     try (inversion H; subst; cbn [val_ok]; try exact I; apply wrap64_range).
   - destruct (Z.eqb_spec y 0); [discriminate|]. destruct (Z.eqb x min64 && Z.eqb y (-1)) eqn:E; [discriminate|].
     inversion H; subst. cbn [val_ok] in *. apply in64_quot; try assumption.
@@ -32,7 +32,12 @@ Qed.
 
 Lemma eval_binop_no_assert o va vb : eval_binop o va vb <> OF FAssert.
 Proof.
-  destruct o; destruct va as [x|x| |x], vb as [y|y| |y]; cbn [eval_binop value_eqb]; try discriminate;
+  destruct o; destruct va as [x|x| |x|x], vb as [y|y| |y|y]; cbn [eval_binop value_eqb]; try discriminate;
+    try (destruct (Z.eqb y 0); [discriminate|]; destruct (Z.eqb x min64 && Z.eqb y (-1)); discriminate).
+Qed.
+Lemma eval_binop_no_oob o va vb : eval_binop o va vb <> OF FOob.
+Proof.
+  destruct o; destruct va as [x|x| |x|x], vb as [y|y| |y|y]; cbn [eval_binop value_eqb]; try discriminate;
     try (destruct (Z.eqb y 0); [discriminate|]; destruct (Z.eqb x min64 && Z.eqb y (-1)); discriminate).
 Qed.
 Lemma eval_unop_no_assert o v : eval_unop o v <> OF FAssert.
@@ -51,6 +56,44 @@ Lemma arith_mod_eq x y : arith OP_MOD x y =
   if Z.eqb y 0 then Some 0%Z else if Z.eqb x (-9223372036854775808) && Z.eqb y (-1) then Some 0%Z else Some (Z.rem x y).
 Proof. reflexivity. Qed.
 
+(* the element / argument evaluator of EArr and ECall, named *)
+Definition eval_args (fns : list fn) (fuel : nat) (genv en : env) : list expr -> list N -> res (list value) :=
+  fix eval_args (l : list expr) (out0 : list N) : res (list value) :=
+    match l with
+    | [] => Ok [] out0
+    | a :: r => bind (eval_expr fns fuel genv en a out0) (fun v out1 =>
+                bind (eval_args r out1) (fun vs out2 => Ok (v :: vs) out2))
+    end.
+
+Lemma eval_arr_eq fns fuel genv en es out :
+  eval_expr fns (S fuel) genv en (EArr es) out =
+  bind (eval_args fns fuel genv en es out) (fun vs out1 =>
+    match ints_of vs with Some l => Ok (VArr l) out1 | None => Stuck end).
+Proof. reflexivity. Qed.
+
+Lemma eval_args_length fns fuel genv en es : forall out vs out',
+  eval_args fns fuel genv en es out = Ok vs out' -> length vs = length es.
+Proof.
+  induction es as [|a r IH]; intros out vs out' H; cbn [eval_args] in H.
+  - inversion H. reflexivity.
+  - destruct (eval_expr fns fuel genv en a out) as [v o1| | |]; cbn [bind] in H; try discriminate.
+    destruct (eval_args fns fuel genv en r o1) as [vs' o2| | |] eqn:E; cbn [bind] in H; try discriminate.
+    inversion H; subst. cbn [length]. f_equal. eapply IH; eassumption.
+Qed.
+
+Lemma ints_of_spec vs : forall l, ints_of vs = Some l -> vs = map VInt l.
+Proof.
+  induction vs as [|v vs IH]; intros l H; cbn [ints_of] in H.
+  - inversion H. reflexivity.
+  - destruct v; try discriminate. destruct (ints_of vs) as [l'|]; [|discriminate]. inversion H; subst.
+    cbn [map]. f_equal. apply IH. reflexivity.
+Qed.
+
+Lemma nth_map_MInt l : forall n, n < length l -> nth n (map MInt l) MVoid = MInt (nth n l 0%Z).
+Proof.
+  induction l as [|z l IH]; intros n H; cbn [length] in H; [lia|]. destruct n; [reflexivity|]. cbn [map nth]. apply IH. lia.
+Qed.
+
 Section Expr.
 Variable fns : list fn.
 Variable G : genv.
@@ -63,7 +106,7 @@ Lemma step_binop_ok fn ret locs cs ip g out o va vb v st :
   MNext (mkst fn ret locs (mval_of v :: st) cs (ip + 1) g out).
 Proof.
   intros Hat Hsc He.
-  destruct o; try discriminate Hsc; destruct va as [x|x| |x], vb as [y|y| |y]; cbn [eval_binop value_eqb] in He;
+  destruct o; try discriminate Hsc; destruct va as [x|x| |x|x], vb as [y|y| |y|y]; cbn [eval_binop value_eqb] in He;
     try discriminate He; cbn [mval_of binop_code] in *.
   - inversion He; subst. eapply step_arith; [eassumption|unfold is_arith_op; auto|reflexivity].
   - inversion He; subst. eapply step_arith; [eassumption|unfold is_arith_op; auto|reflexivity].
@@ -122,7 +165,7 @@ Lemma rpost_seq {A} (P1 P2 : A -> list N -> mres -> Prop) (r : res A) s :
 Proof.
   intros H K. destruct r as [a o|f o| |]; cbn [rpost] in *; try apply Reach_trivial.
   - eapply Reach_bind; [exact H|]. intros m Hm. apply K; auto.
-  - destruct f; try apply Reach_trivial. exact H.
+  - destruct f; try apply Reach_trivial; exact H.
 Qed.
 
 Lemma sim_ENum fuel z : expr_sim (S fuel) (ENum z).
@@ -174,7 +217,7 @@ Proof.
   eapply rpost_bind.
   { eapply (IHa genv en out ce p ca p1 fn fe cf pos ret locs st cs g); try eassumption. inf. }
   intros v o1 m _ [-> Hv]; cbv iota beta.
-  destruct o, v as [z|b| |s]; cbn [eval_unop of_opres rpost]; rt.
+  destruct o, v as [z|b| |s|l]; cbn [eval_unop of_opres rpost]; rt.
   - vstep Hfe Hcode Hc step_neg. apply Reach_here. split; [same_state|apply wrap64_range].
   - vstep Hfe Hcode Hc step_not. apply Reach_here. split; [same_state|exact I].
 Qed.
@@ -199,7 +242,7 @@ Proof.
   destruct (eval_binop o va vb) as [v|f|] eqn:Eo; cbn [of_opres rpost]; rt.
   - vstep Hfe Hcode Hc step_binop_ok; [exact Hsc|exact Eo|].
     apply Reach_here. split; [same_state|eapply binop_val_ok; eassumption].
-  - destruct f; rt. exfalso. exact (eval_binop_no_assert _ _ _ Eo).
+  - destruct f; rt; exfalso; [exact (eval_binop_no_assert _ _ _ Eo)|exact (eval_binop_no_oob _ _ _ Eo)].
 Qed.
 
 (* short-circuit and / or *)
@@ -216,13 +259,13 @@ Proof.
   eapply rpost_bind.
   { eapply (IHa genv en out ce p ca p1 fn fe cf pos ret locs st cs g); try eassumption; [inf|]. eapply pool_le_trans; eassumption. }
   intros va o1 m _ [-> Hva]; cbv iota beta.
-  destruct va as [z|[|]| |s]; rt.
+  destruct va as [z|[|]| |s|l]; rt.
   - (* true: fall through to the right operand *)
     vstep Hfe Hcode Hc step_dup. vnext Hc. vstep Hfe Hcode Hc step_jmp_false; [lia|]. cbn [truthy mval_of]. vnext Hc.
     vstep Hfe Hcode Hc step_pop. vnext Hc.
     eapply rpost_bind.
     { at_code Hc. eapply (IHb genv en o1 ce p1 cb p2 fn fe cf _ ret locs st cs g); try eassumption. inf. }
-    intros vb o2 m _ [-> Hvb]; cbv iota beta. destruct vb as [z|bb| |s]; rt.
+    intros vb o2 m _ [-> Hvb]; cbv iota beta. destruct vb as [z|bb| |s|l]; rt.
     cbn [rpost]. apply Reach_here. split; [same_state|exact I].
   - (* false: jump over the right operand, the duplicate is the result *)
     vstep Hfe Hcode Hc step_dup. vnext Hc. vstep Hfe Hcode Hc step_jmp_false; [lia|]. cbn [truthy mval_of rpost].
@@ -242,14 +285,14 @@ Proof.
   eapply rpost_bind.
   { eapply (IHa genv en out ce p ca p1 fn fe cf pos ret locs st cs g); try eassumption; [inf|]. eapply pool_le_trans; eassumption. }
   intros va o1 m _ [-> Hva]; cbv iota beta.
-  destruct va as [z|[|]| |s]; rt.
+  destruct va as [z|[|]| |s|l]; rt.
   - vstep Hfe Hcode Hc step_dup. vnext Hc. vstep Hfe Hcode Hc step_jmp_true; [lia|]. cbn [truthy mval_of rpost].
     apply Reach_here. split; [same_state|exact I].
   - vstep Hfe Hcode Hc step_dup. vnext Hc. vstep Hfe Hcode Hc step_jmp_true; [lia|]. cbn [truthy mval_of]. vnext Hc.
     vstep Hfe Hcode Hc step_pop. vnext Hc.
     eapply rpost_bind.
     { at_code Hc. eapply (IHb genv en o1 ce p1 cb p2 fn fe cf _ ret locs st cs g); try eassumption. inf. }
-    intros vb o2 m _ [-> Hvb]; cbv iota beta. destruct vb as [z|bb| |s]; rt.
+    intros vb o2 m _ [-> Hvb]; cbv iota beta. destruct vb as [z|bb| |s|l]; rt.
     cbn [rpost]. apply Reach_here. split; [same_state|exact I].
 Qed.
 
@@ -271,7 +314,7 @@ Proof.
   { eapply (IHc genv en out ce p cc p1 fn fe cf pos ret locs st cs g); try eassumption; [inf|].
     eapply pool_le_trans; [eassumption|]. eapply pool_le_trans; eassumption. }
   intros vc o1 m _ [-> Hvc]; cbv iota beta.
-  destruct vc as [z|[|]| |s]; rt.
+  destruct vc as [z|[|]| |s|l]; rt.
   - vstep Hfe Hcode Hjf step_jmp_false; [lia|]. cbn [truthy mval_of].
     eapply rpost_seq.
     { at_code Hca. eapply (IHa genv en o1 ce p1 ca p2 fn fe cf _ ret locs st cs g); try eassumption; [inf|].
@@ -283,6 +326,102 @@ Proof.
     eapply (IHb genv en o1 ce p2 cb p3 fn fe cf _ ret locs st cs g); try eassumption. inf.
 Qed.
 
+(* ---------- operand lists: the arguments of a call, the elements of an array literal ---------- *)
+Lemma sim_args fuel args : Forall (expr_sim fuel) args ->
+  forall genv en out ce p c p' fn fe cf pos ret locs st cs g,
+  in_fn M fn fe cf -> compile_args G ce args p = Some (c, p') -> code_at cf pos c -> exprs_ok args ->
+  match_env ce en locs -> match_genv G genv g -> pool_le p' (m_strings M) -> fuel_small fuel ->
+  Reach M (mkst fn ret locs st cs (fe_off fe + pos) g out)
+    (rpost (fun vs out' m => m = MNext (mkst fn ret locs (rev (map mval_of vs) ++ st) cs (fe_off fe + (pos + csize c)) g out') /\
+                             Forall val_ok vs)
+           (eval_args fns fuel genv en args out)).
+Proof.
+  induction 1 as [|a r Ha Hr IH]; intros genv en out ce p c p' fn fe cf pos ret locs st cs g Hin Hcomp Hc Hok Hme Hmg Hpool Hfuel;
+    cbn [compile_args] in Hcomp; cbn [eval_args].
+  - apply some2_inj in Hcomp. destruct Hcomp as [<- <-]. cbn [rpost]. apply Reach_here. split; [same_state|constructor].
+  - destruct (compile_expr G ce a p) as [[ca p1]|] eqn:E1; [|discriminate].
+    destruct (compile_args G ce r p1) as [[cr p2]|] eqn:E2; [|discriminate].
+    apply some2_inj in Hcomp. destruct Hcomp as [<- <-]. destruct Hok as [Hoka Hokr].
+    pose proof (compile_args_pool _ _ _ _ _ _ E2) as P2.
+    pose proof (code_at_app_l _ _ _ _ Hc) as Hca. apply code_at_app_r in Hc. autorewrite with csz.
+    eapply rpost_bind.
+    { eapply (Ha genv en out ce p ca p1 fn fe cf pos ret locs st cs g); try eassumption. eapply pool_le_trans; eassumption. }
+    intros v o1 m _ [-> Hv]; cbv iota beta.
+    eapply rpost_bind.
+    { eapply (IH genv en o1 ce p1 cr p2 fn fe cf (pos + csize ca) ret locs (mval_of v :: st) cs g); eassumption. }
+    intros vs o2 m _ [-> Hvs]; cbv iota beta. cbn [rpost].
+    apply Reach_here. split; [|constructor; assumption].
+    cbn [map rev]. rewrite <- app_assoc. cbn [app]. same_state.
+Qed.
+
+(* ---------- arrays ---------- *)
+Lemma sim_EArr fuel es : Forall (expr_sim fuel) es -> expr_sim (S fuel) (EArr es).
+Proof.
+  intros IHes genv en out ce p c p' fn fe cf pos ret locs st cs g (Hfe & Hcode & Hsz) Hcomp Hc Hok Hme Hmg Hpool Hfuel.
+  apply fuel_small_S in Hfuel. rewrite eval_arr_eq. rewrite compile_arr_eq in Hcomp.
+  destruct (compile_args G ce es p) as [[cel p1]|] eqn:Ea; [|discriminate].
+  apply some2_inj in Hcomp. destruct Hcomp as [<- <-]. destruct Hok as [Hn Hokes].
+  pose proof (code_at_app_l _ _ _ _ Hc) as Hca. apply code_at_app_r in Hc. autorewrite with csz.
+  eapply rpost_bind.
+  { eapply (sim_args fuel es IHes genv en out ce p cel p1 fn fe cf pos ret locs st cs g); try eassumption. inf. }
+  intros vs o1 m Hev [-> Hvs]; cbv iota beta.
+  destruct (ints_of vs) as [l|] eqn:Ei; rt. cbn [rpost].
+  pose proof (eval_args_length _ _ _ _ _ _ _ _ Hev) as Hlen.
+  pose proof (ints_of_spec _ _ Ei) as Hvl. subst vs. rewrite map_length in Hlen.
+  vstep Hfe Hcode Hc step_arr_literal; [rewrite rev_length, !map_length; exact Hlen|].
+  apply Reach_here. split.
+  - rewrite rev_involutive, map_map. cbn [mval_of]. same_state.
+  - cbn [val_ok]. split.
+    + rewrite Forall_map in Hvs. exact Hvs.
+    + apply in64_spec. rewrite Hlen. lia.
+Qed.
+
+Lemma sim_EAt fuel a i : expr_sim fuel a -> expr_sim fuel i -> expr_sim (S fuel) (EAt a i).
+Proof.
+  intros IHa IHi genv en out ce p c p' fn fe cf pos ret locs st cs g (Hfe & Hcode & Hsz) Hcomp Hc Hok Hme Hmg Hpool Hfuel.
+  apply fuel_small_S in Hfuel. cbn [eval_expr]. cbn [compile_expr] in Hcomp. destruct Hok as [Hoka Hoki].
+  destruct (compile_expr G ce a p) as [[ca p1]|] eqn:Ea; [|discriminate].
+  destruct (compile_expr G ce i p1) as [[ci p2]|] eqn:Ei; [|discriminate].
+  apply some2_inj in Hcomp. destruct Hcomp as [<- <-].
+  pose proof (compile_expr_pool _ _ _ _ _ _ Ei) as P2.
+  pose proof (code_at_app_l _ _ _ _ Hc) as Hca. apply code_at_app_r in Hc.
+  pose proof (code_at_app_l _ _ _ _ Hc) as Hci. apply code_at_app_r in Hc. autorewrite with csz.
+  eapply rpost_bind.
+  { eapply (IHa genv en out ce p ca p1 fn fe cf pos ret locs st cs g); try eassumption; [inf|]. eapply pool_le_trans; eassumption. }
+  intros va o1 m _ [-> Hva]; cbv iota beta.
+  eapply rpost_bind.
+  { eapply (IHi genv en o1 ce p1 ci p2 fn fe cf (pos + csize ca) ret locs (mval_of va :: st) cs g); try eassumption. inf. }
+  intros vi o2 m _ [-> Hvi]; cbv iota beta.
+  destruct va as [z|b| |s|l]; rt. destruct vi as [k|b| |s|l']; rt.
+  unfold arr_get. cbn [mval_of].
+  destruct (Z.leb_spec 0 k) as [H0|H0]; cbn [andb].
+  - destruct (Z.ltb_spec k (Z.of_nat (length l))) as [H1|H1]; cbn [rpost].
+    + (* in range: the element *)
+      vstep Hfe Hcode Hc step_arr_get; [rewrite map_length; lia|].
+      rewrite nth_map_MInt by lia. apply Reach_here. split; [same_state|].
+      cbn [val_ok] in Hva |- *. destruct Hva as [Hall _]. rewrite Forall_forall in Hall. apply Hall. apply nth_In. lia.
+    + (* at or beyond the end: the VM traps *)
+      at_code Hc. eapply Reach_final; [eapply step_arr_get_oob; [eapply fetch_at; eassumption|rewrite map_length; lia]|exact I|reflexivity].
+  - (* negative index: the VM traps *)
+    cbn [rpost]. at_code Hc.
+    eapply Reach_final; [eapply step_arr_get_oob; [eapply fetch_at; eassumption|rewrite map_length; lia]|exact I|reflexivity].
+Qed.
+
+Lemma sim_ELen fuel a : expr_sim fuel a -> expr_sim (S fuel) (ELen a).
+Proof.
+  intros IHa genv en out ce p c p' fn fe cf pos ret locs st cs g (Hfe & Hcode & Hsz) Hcomp Hc Hok Hme Hmg Hpool Hfuel.
+  apply fuel_small_S in Hfuel. cbn [eval_expr]. cbn [compile_expr] in Hcomp. cbn [expr_ok] in Hok.
+  destruct (compile_expr G ce a p) as [[ca p1]|] eqn:Ea; [|discriminate].
+  apply some2_inj in Hcomp. destruct Hcomp as [<- <-].
+  pose proof (code_at_app_l _ _ _ _ Hc) as Hca. apply code_at_app_r in Hc. autorewrite with csz.
+  eapply rpost_bind.
+  { eapply (IHa genv en out ce p ca p1 fn fe cf pos ret locs st cs g); try eassumption. inf. }
+  intros va o1 m _ [-> Hva]; cbv iota beta.
+  destruct va as [z|b| |s|l]; rt. cbn [rpost mval_of].
+  vstep Hfe Hcode Hc step_arr_len. rewrite map_length.
+  apply Reach_here. split; [same_state|]. cbn [val_ok] in Hva |- *. apply Hva.
+Qed.
+
 (* ---------- stage B: all expressions without calls ---------- *)
 Fixpoint no_call (e : expr) : Prop :=
   match e with
@@ -291,12 +430,15 @@ Fixpoint no_call (e : expr) : Prop :=
   | EBin _ a b => no_call a /\ no_call b
   | ECall _ _ => False
   | ECond c a b => no_call c /\ no_call a /\ no_call b
+  | EArr es => (fix go (l : list expr) : Prop := match l with [] => True | a :: r => no_call a /\ go r end) es
+  | EAt a i => no_call a /\ no_call i
+  | ELen a => no_call a
   end.
 
 Theorem sim_expr_no_call : forall fuel e, no_call e -> expr_sim fuel e.
 Proof.
   induction fuel as [|fuel IH]; intros e Hn; [apply expr_sim_0|].
-  destruct e as [z|b|s|x|o a|o a b|f args|c a b]; cbn [no_call] in Hn.
+  destruct e as [z|b|s|x|o a|o a b|f args|c a b|es|a i|a]; cbn [no_call] in Hn.
   - apply sim_ENum.
   - apply sim_EBool.
   - apply sim_EStr.
@@ -307,6 +449,9 @@ Proof.
     + apply sim_EBin; [exact Eo| |]; apply IH; assumption.
   - contradiction.
   - destruct Hn as (Hc & Ha & Hb). apply sim_ECond; apply IH; assumption.
+  - apply sim_EArr. induction es as [|a r IHr]; [constructor|]. destruct Hn as [Ha Hr]. constructor; [apply IH; exact Ha|apply IHr; exact Hr].
+  - destruct Hn as [Ha Hi]. apply sim_EAt; apply IH; assumption.
+  - apply sim_ELen. apply IH; assumption.
 Qed.
 
 End Expr.
